@@ -41,8 +41,8 @@ class C02(PropCheck):
             'random and adversarial block/paragraph documents (page heights from 1px, lengths up to 2048px, fixed '
             'heights 0): outcome kind (pages / exception class) and full pagination compared with the model; '
             'non-trivial = at least 2 pages')
-        pm_corr.add_cases(run, sec, run.n(120, 3000))
-        pm_corr.add_cases(run, sec, run.n(120, 3000), gen=adversarial_doc)
+        pm_corr.add_cases(run, sec, run.n(120, 3000), skip_errors=False)
+        pm_corr.add_cases(run, sec, run.n(120, 3000), gen=adversarial_doc, skip_errors=False)
         sec2 = run.section(
             'write-pdf-total',
             'the same documents rendered through the public API and written to PDF: the model of the unmodelled '
@@ -70,13 +70,15 @@ class C02(PropCheck):
                      nontrivial=len(doc['features']) >= 3, tags=doc['features'])
 
     def classify(self, d):
+        if d['section'] == 'pm-outcomes' and d['impl'] == 'err:IndexError@page.py:_update_page_groups':
+            return 'page-groups-indexerror'
         if d['section'] == 'wide-total' and d['impl'].startswith('err:'):
             if d['impl'].endswith('@inline.py:skip_first_whitespace') and 'flex' in d['meta'].get('features', ()):
                 return 'flex-item-resume-crash'
         return None
 
     def finding_replays(self):
-        return {'flex-item-resume-crash': flex_resume_crash}
+        return {'flex-item-resume-crash': flex_resume_crash, 'page-groups-indexerror': page_groups_crash}
 
     def judge(self, d):
         if d['impl'].startswith('err:'):
@@ -112,6 +114,16 @@ FLEX_CRASH = (
     '<p style="margin:4px 0">w1 w2 w3</p></div><div style="flex:1"><p style="padding:4px;border:2px solid;orphans:4;'
     'widows:3">w4 <b>w5 w6 w7</b> w8 w9 w10 w11 <b style="padding:0 2px">w12</b> w13 w14 w15<br> w16</p></div>'
     '<div style="flex:1"><p style="padding:4px">w17</p></div></div></div>')
+
+
+PAGE_GROUPS_CRASH = (
+    '<style>@page{size:200px 115.5px;margin:0}html,body,p,div{margin:0}p{font-size:2px;line-height:12.5px}</style>'
+    '<p>w5x0<br>w5x1<br>w5x2</p><div style="height:80px"><div><div style="break-before:avoid"></div>'
+    '<p style="page:pb">w7x0</p></div></div>')
+
+
+def page_groups_crash():
+    return wide_trace.render_outcome(PAGE_GROUPS_CRASH).startswith('err:IndexError')
 
 
 def flex_resume_crash():
